@@ -187,7 +187,7 @@ func report(o *checkOpts, prog *Program, results []*UnitResult, genFails map[str
 			}
 		}
 		for _, u := range undecided {
-			fmt.Printf("  undecided %v [%v]\n", u["obligation"], u["status"])
+			fmt.Printf("  undecided %v [%v] at %v: %v\n", u["obligation"], u["status"], u["at"], u["clause"])
 		}
 	}
 	if o.updateLedger && prop != "" {
